@@ -2614,8 +2614,9 @@ class SEVM:
             # non-existing contracts
             else:
                 # in evm, calls to non-existing contracts always succeed with empty returndata
+                # (unless the call depth limit is exceeded, as for a call to any other account)
                 # TODO: exitcode should be 0 when balance is not enough for callvalue
-                exit_code = ONE
+                exit_code = ONE if ex.context.depth + 1 <= MAX_CALL_DEPTH else ZERO
                 ret = ByteVec()
 
             # push exit code
